@@ -495,7 +495,10 @@ def int_array(x):
         x = np.array(x)
 
     if x.dtype != complex:
-        x = np.array(list(map(int, x.flatten()))).reshape(x.shape)
+        vals = list(map(int, x.flatten()))
+        # integers that do not all fit in int64 are kept as Python objects (np.array would promote them to float64)
+        dtype = None if all(-2**63 <= v < 2**63 for v in vals) else object
+        x = np.array(vals, dtype=dtype).reshape(x.shape)
     else:
         x_real = np.vectorize(lambda v: v.real)(x)
         x_imag = np.vectorize(lambda v: v.imag)(x)
